@@ -315,9 +315,45 @@ C4CmdRange(c) ==
     [] c.k = "plural" -> C4HasRange(c.e) \/ C4CmdsRange(c.def) \/ \E i \in 1..Len(c.cases) : C4CmdsRange(c.cases[i].body)
     [] OTHER -> FALSE
 
+\* length(5), strContains(5, ..): ill-typed wherever they stand; soyjs writes
+\* 5.length, which is not JavaScript, so the whole file is lost even when the
+\* expression is never reached
+C4NumLit(e) == e.k \in {"int", "float", "bigint"} \/ (e.k = "neg" /\ e.a.k \in {"int", "float", "bigint"})
+RECURSIVE C4IllLit(_)
+C4IllLit(e) ==
+  CASE e.k = "list" -> \E i \in 1..Len(e.items) : C4IllLit(e.items[i])
+    [] e.k = "map" -> \E i \in 1..Len(e.items) : C4IllLit(e.items[i].val)
+    [] e.k = "var" -> \E i \in 1..Len(e.acc) : e.acc[i].k = "expr" /\ C4IllLit(e.acc[i].e)
+    [] e.k = "fn" -> (e.name \in {"length", "strContains"} /\ Len(e.args) >= 1 /\ C4NumLit(e.args[1]))
+                     \/ \E i \in 1..Len(e.args) : C4IllLit(e.args[i])
+    [] e.k \in {"neg", "not"} -> C4IllLit(e.a)
+    [] e.k = "tern" -> C4IllLit(e.c) \/ C4IllLit(e.a) \/ C4IllLit(e.b)
+    [] e.k \in BinOps -> C4IllLit(e.a) \/ C4IllLit(e.b)
+    [] OTHER -> FALSE
+
+RECURSIVE C4CmdIll(_), C4CmdsIll(_)
+C4CmdsIll(cs) == \E i \in 1..Len(cs) : C4CmdIll(cs[i])
+C4CmdIll(c) ==
+  CASE c.k = "print" -> C4IllLit(c.e) \/
+         \E i \in 1..Len(c.dirs) : \E j \in 1..Len(c.dirs[i].args) : C4IllLit(c.dirs[i].args[j])
+    [] c.k = "if" -> (\E i \in 1..Len(c.brs) : C4IllLit(c.brs[i].c) \/ C4CmdsIll(c.brs[i].body))
+                     \/ C4CmdsIll(c.els.body)
+    [] c.k = "switch" -> C4IllLit(c.e) \/ C4CmdsIll(c.def.body) \/
+         \E i \in 1..Len(c.cases) : C4CmdsIll(c.cases[i].body) \/
+                \E j \in 1..Len(c.cases[i].vals) : C4IllLit(c.cases[i].vals[j])
+    [] c.k = "foreach" -> C4IllLit(c.e) \/ C4CmdsIll(c.body) \/ C4CmdsIll(c.empty.body)
+    [] c.k \in {"letv", "pv"} -> C4IllLit(c.e)
+    [] c.k \in {"letc", "log", "pc"} -> C4CmdsIll(c.body)
+    [] c.k = "call" -> C4IllLit(c.de) \/ C4CmdsIll(c.params)
+    [] c.k = "css" -> C4IllLit(c.e)
+    [] c.k = "msg" -> C4CmdsIll(c.body)
+    [] c.k = "plural" -> C4IllLit(c.e) \/ C4CmdsIll(c.def) \/ \E i \in 1..Len(c.cases) : C4CmdsIll(c.cases[i].body)
+    [] OTHER -> FALSE
+
 StaticWhy(p) ==
   IF ~(\A s \in C4ProgStrs(p) : C4TextOK(s)) THEN "alphabet"
   ELSE IF \E t \in DOMAIN p.bundle : C4CmdsRange(p.bundle[t].body) THEN "range-outside-foreach"
+  ELSE IF \E t \in DOMAIN p.bundle : C4CmdsIll(p.bundle[t].body) THEN "ill-typed-literal-operand"
   ELSE ""
 
 (***************************************************************************)
